@@ -496,6 +496,25 @@ class CallMixin:
         st.set_field("Iter", "pos", decl["pos"], it.t, pos.t + 1)
         return v
 
+    def bi_sorted(self, node, st, ctx):
+        """sorted(list, key=..., reverse=...): a fresh list with the same length and the same members (the order is
+        left unspecified: nothing proved may depend on it); the key function is not evaluated"""
+        x = self.ev(node.args[0], st, ctx)
+        if x.ty.kind != "list":
+            raise Unsupported("sorted(%r)" % x.ty)
+        r = st.new_ref()
+        n = st.list_len(x.ty, x.t)
+        el = z3.Const(fresh_name("sorted"), z3.ArraySort(I, x.ty.args[0].sort()))
+        st.set_list(x.ty, r, n, el)
+        res = SV(x.ty, r)
+        mo = self.list_mem(st, x.ty, x.t)
+        mn = self.list_mem(st, x.ty, r)
+        st.assume(mo == mn)
+        if x.ty.args[0].is_ref:
+            j = z3.Int(fresh_name("j"))
+            st.assume(z3.ForAll([j], z3.Implies(z3.And(0 <= j, j < n), z3.And(0 <= el[j], el[j] < st.alloc)), patterns=[el[j]]))
+        return res
+
     def bi_iter(self, node, st, ctx):
         raise Unsupported("iter()")
 
